@@ -14,13 +14,16 @@ ClSig(r) ==
      <<"strictly-increasing", \A i \in DOMAIN r.outs : r.outs[i].ok => StrictlyIncreasing(r.outs[i].sig)>>,
      <<"digits-wellformed", \A i \in DOMAIN r.outs : r.outs[i].ok =>
            (r.outs[i].inrange /\ \A j \in DOMAIN r.outs[i].sig : Len(r.outs[i].sig[j]) = r.k)>>,
-     <<"equals-definition", \A i \in DOMAIN r.outs : r.outs[i].ok => Range(r.outs[i].sig) = Expected(r)>> >>
+     <<"equals-definition", LET exp == Expected(r) IN \A i \in DOMAIN r.outs : r.outs[i].ok => Range(r.outs[i].sig) = exp>> >>
 
 ClFind(r) ==
-  LET valid == { i \in DOMAIN r.matches : r.matches[i].valid } IN
+  LET valid == { i \in DOMAIN r.matches : r.matches[i].valid }
+      exp == Expected(r)                       \* evaluated once (thousands of matches on long sequences with one-letter prefixes)
+      found == { r.matches[i].idx : i \in valid }
+  IN
   << <<"no-error", r.ok>>,
-     <<"matches-sound", r.ok => \A i \in valid : r.matches[i].idx \in Expected(r)>>,
-     <<"matches-complete", r.ok => { r.matches[i].idx : i \in valid } = Expected(r)>> >>
+     <<"matches-sound", r.ok => found \subseteq exp>>,
+     <<"matches-complete", r.ok => found = exp>> >>
 
 Clauses(r) == IF r.op = "sig" THEN ClSig(r) ELSE ClFind(r)
 
